@@ -70,7 +70,17 @@ func c16MergeOnce(db objects.Store, tbls []*objects.Table, sums [][]byte) (outco
 	if err != nil {
 		return "error", 0
 	}
-	timeout := time.After(20 * time.Second)
+	// Not 20 s: when one differ ends early (its channel closes — on a read error, or simply because it
+	// is done) mergeTables keeps selecting the closed channel, a busy loop that on one processor leaves
+	// the other differ a time slice per row. Slow (seconds for a few hundred rows under the race
+	// detector and load) but it terminates, so the watchdog has to outlast it.
+	d := 75 * time.Second
+	if v := os.Getenv("VERIF_C16_MERGE_TIMEOUT"); v != "" {
+		if p, err := time.ParseDuration(v); err == nil {
+			d = p
+		}
+	}
+	timeout := hangAfter(d)
 	for {
 		select {
 		case mg, ok := <-ch:
@@ -156,6 +166,10 @@ func runC16Merge(ctx *Ctx) {
 	in.Fault = []string{"none", "del-base-blkidx", "del-base-blk", "del-branch-blk", "del-branch-blkidx", "get-fails"}[r.Intn(6)]
 	in.FaultArg = r.Intn(40)
 	in.Procs = []int{1, 2, 4, 16}[r.Intn(4)]
+	if in.Procs == 1 {
+		// on one processor a merge whose differs end at different times crawls (see c16MergeOnce)
+		in.Rows = 256 + r.Intn(150)
+	}
 	ctx.Emit("merge", in, c16MergeRun(in), true, "fault="+in.Fault, fmt.Sprintf("procs=%d", in.Procs))
 }
 
